@@ -233,7 +233,9 @@ func c13HashSub() *engine.Sub {
 	return &engine.Sub{
 		Name: "strings-that-defeat-fingerprints",
 		Rule: "patterns *T*, id=*T*;, *T, T*, a*T*b, *T*T* where T is the Thue-Morse sequence of length 2^k (k = 1 .. 13) over the letter pairs a/b, 0/1 and a/NUL-free b/c; strings that hold the COMPLEMENT of T (letters swapped: equal length, equal letter counts, equal polynomial hash modulo 2^64 for every base once k >= 10..11) bare, inside x..y, and after the first half of T - and the strings that hold T itself: like is true exactly when the string is in the language (reference: strings.Contains / HasPrefix / HasSuffix on the literal runs, no hashing); non-trivial = all",
-		Bound: func(string) string { return fmt.Sprintf("13 lengths x %d pattern shapes x 3 letter pairs x 3 surroundings x {complement, genuine}", len(c13HashForms)) },
+		Bound: func(string) string {
+			return fmt.Sprintf("13 lengths x %d pattern shapes x 3 letter pairs x 3 surroundings x {complement, genuine}", len(c13HashForms))
+		},
 		Gen: func(tier string, emit func(any) bool) {
 			for k := 1; k <= 13; k++ {
 				for f := range c13HashForms {
